@@ -20,9 +20,9 @@ ASSUMPTIONS = ["the eagerly parsed table is the reference for the lazy one (and 
                "source files are canonical and LF-terminated: otherwise byte equality of writes would contradict C04 (lazy passes text through, eager re-renders)"]
 EXHAUSTIVE_CORE = None
 
-C05_FORMATS = ["bed6", "narrowpeak", "bdg", "fastq", "fasta2", "vcf", "sam", "bed3"]
-INT_FIELDS = {"bed6": ["start", "stop", "score"], "narrowpeak": ["start", "stop", "summit"], "bdg": ["start", "stop"], "vcf": ["position"], "sam": ["position", "mapq", "flag"], "bed3": ["start", "stop"], "fastq": [], "fasta2": []}
-STR_FIELDS = {"bed6": ["name", "chromosome"], "narrowpeak": ["name"], "bdg": ["chromosome"], "vcf": ["id"], "sam": ["name", "cigar"], "bed3": ["chromosome"], "fastq": ["name", "sequence"], "fasta2": ["name", "sequence"]}
+C05_FORMATS = ["bed6", "narrowpeak", "bdg", "fastq", "fasta2", "vcf", "sam", "bed3", "csv4", "ssv4"]
+INT_FIELDS = {"bed6": ["start", "stop", "score"], "narrowpeak": ["start", "stop", "summit"], "bdg": ["start", "stop"], "vcf": ["position"], "sam": ["position", "mapq", "flag"], "bed3": ["start", "stop"], "fastq": [], "fasta2": [], "csv4": ["start", "stop", "score"], "ssv4": ["start", "stop", "score"]}
+STR_FIELDS = {"bed6": ["name", "chromosome"], "narrowpeak": ["name"], "bdg": ["chromosome"], "vcf": ["id"], "sam": ["name", "cigar"], "bed3": ["chromosome"], "fastq": ["name", "sequence"], "fasta2": ["name", "sequence"], "csv4": ["chromosome"], "ssv4": ["chromosome"]}
 
 
 def preload():
